@@ -40,6 +40,9 @@ pub struct Case {
     /// `params` with update() (the parameter setting is reached through a mutation)
     #[serde(default)]
     pub via: Vec<Fb>,
+    /// construct through `Default::default()` (only on cells holding the law's default parameters)
+    #[serde(default)]
+    pub default_ctor: bool,
 }
 
 pub const DRAW_BUDGET: u64 = 100_000;
@@ -67,7 +70,7 @@ pub fn cells() -> Vec<(&'static str, Vec<f64>)> {
     for nu in [0.5, 1., 1.5, 2., 2.5, 3., 3.5, 7.9, 30., 30.5, 200.] {
         c.push(("T", vec![nu]));
     }
-    for l in [1e-3, 0.5, 5., 9.99, 10., 42., 149., 150., 400., 1e3] {
+    for l in [1e-3, 0.5, 1., 5., 9.99, 10., 42., 149., 150., 400., 1e3, 1e6, 1e10] {
         c.push(("Poisson", vec![l]));
     }
     for n in [0., 1., 15., 70., 1000.] {
@@ -75,7 +78,7 @@ pub fn cells() -> Vec<(&'static str, Vec<f64>)> {
             c.push(("Binomial", vec![n, p]));
         }
     }
-    for (n, p) in [(100., 0.3), (100., 0.31), (59., 0.5), (61., 0.5), (100., 0.97), (40., 0.95), (400., 0.995), (2000., 0.999), (2000., 0.02), (300., 0.9)] {
+    for (n, p) in [(100., 0.3), (100., 0.31), (59., 0.5), (61., 0.5), (100., 0.97), (40., 0.95), (400., 0.995), (2000., 0.999), (2000., 0.02), (300., 0.9), (64., 0.5), (128., 0.5), (2048., 0.5), (4096., 0.5), (4096., 0.25)] {
         c.push(("Binomial", vec![n, p]));
     }
     for p in [[0., 1.], [-2., 6.], [1e3, 1e3 + 1e-3], [5., 5.], [-1e3, 1e3]] {
@@ -314,6 +317,41 @@ fn gen_spd(r: &mut Sm, d: usize, scale: f64) -> Vec<f64> {
     c
 }
 
+/// covariances with structure: diagonal, equal correlation, and off-diagonal entries that cancel
+/// exactly in sum (any shortcut keyed on a sum or on a single entry must not fire wrongly)
+fn gen_structured(r: &mut Sm, d: usize, scale: f64) -> Vec<f64> {
+    let mut c = vec![0.0; d * d];
+    for i in 0..d {
+        c[i * d + i] = scale * (1.0 + (r.below(4) as f64) * 0.5);
+    }
+    let set = |c: &mut Vec<f64>, i: usize, j: usize, v: f64| {
+        c[i * d + j] = v;
+        c[j * d + i] = v;
+    };
+    match r.below(3) {
+        0 => {}
+        1 => {
+            for i in 0..d {
+                for j in 0..i {
+                    set(&mut c, i, j, 0.3 * scale);
+                }
+            }
+        }
+        _ => {
+            if d >= 3 {
+                let a = 0.5 * scale;
+                set(&mut c, 0, 1, a);
+                set(&mut c, 0, 2, -a);
+                if d >= 5 {
+                    set(&mut c, 3, 4, 0.25 * scale);
+                    set(&mut c, 1, 4, -0.25 * scale);
+                }
+            }
+        }
+    }
+    c
+}
+
 fn cholesky(c: &[f64], d: usize) -> Option<Vec<f64>> {
     let mut l = vec![0.0; d * d];
     for i in 0..d {
@@ -374,7 +412,11 @@ impl Prop for C03 {
             for _ in 0..d {
                 p.push((r.f64() - 0.5) * 20.0 * scale.sqrt().max(1e-3));
             }
-            p.extend(gen_spd(&mut r, d, scale));
+            let mut cov = if visit % 3 == 1 { gen_structured(&mut r, d, scale) } else { gen_spd(&mut r, d, scale) };
+            if cholesky(&cov, d).is_none() {
+                cov = gen_spd(&mut r, d, scale);
+            }
+            p.extend(cov);
             params = p;
         }
         // a quarter of the visits move off the grid point (same regime neighbourhood), so that a
@@ -388,9 +430,14 @@ impl Prop for C03 {
             let mut script = vec![];
             let nf = 1 + r.below(4);
             for _ in 0..nf {
-                let kind = *r.pick(&["rng_zero", "rng_max", "rng_tiny", "rng_half", "rng_tail", "rng_streak"]);
+                let kind = *r.pick(&["rng_zero", "rng_max", "rng_tiny", "rng_half", "rng_tail", "rng_streak", "rng_pair"]);
                 let at = if r.chance(0.3) { r.below(8) } else { r.below(2 * n as u64) };
-                if kind == "rng_streak" {
+                if kind == "rng_pair" {
+                    // two consecutive extreme outputs (e.g. a rejected draw followed by the largest one)
+                    let ex = [0u64, u64::MAX, 1 << 63, 1 << 11, 0xFFFF_FFFF, 0xFFFF_FFFF_0000_0000, 1];
+                    script.push(Forced { at, raw: Hx(*r.pick(&ex)), kind: kind.into() });
+                    script.push(Forced { at: at + 1, raw: Hx(*r.pick(&ex)), kind: kind.into() });
+                } else if kind == "rng_streak" {
                     let raw = *r.pick(&[0u64, u64::MAX, 1 << 63, 0x0000_0000_FFFF_FF7F]);
                     for j in 0..(2 + r.below(6)) {
                         script.push(Forced { at: at + j, raw: Hx(raw), kind: kind.into() });
@@ -428,7 +475,12 @@ impl Prop for C03 {
                 via = fbs(others[r.below(others.len() as u64) as usize]);
             }
         }
-        Case { law: law.to_string(), params: fbs(&params), seeding, api, n, script, aux: Hx(r.next()), via }
+        let is_default_cell = *law != "MVN" && slice_bits_eq(&params, &super::c18::default_params_pub(law)).is_none();
+        let default_ctor = is_default_cell && visit % 2 == 1;
+        if default_ctor {
+            via.clear();
+        }
+        Case { law: law.to_string(), params: fbs(&params), seeding, api, n, script, aux: Hx(r.next()), via, default_ctor }
     }
 
     fn exec(case: &Case, st: &mut Stats) -> Option<Viol> {
@@ -512,6 +564,11 @@ impl Prop for C03 {
             c.via.clear();
             out.push(c);
         }
+        if case.default_ctor {
+            let mut c = case.clone();
+            c.default_ctor = false;
+            out.push(c);
+        }
         if case.seeding != Seeding::simplest() {
             let mut c = case.clone();
             c.seeding = Seeding::simplest();
@@ -561,7 +618,7 @@ impl Prop for C03 {
                 v.push(k);
             }
         }
-        for k in ["api.sample_loop", "api.sample_n", "api.sample_matrix", "seeding.seed_clock", "seeding.seed_small", "seeding.seed_set", "config.fault_free", "config.fault_injecting", "config.reached_by_update", "config.off_grid", "fault.rng_zero", "fault.rng_max", "fault.rng_tiny", "fault.rng_half", "fault.rng_tail", "fault.rng_streak", "check.dkw", "check.mvn_projection", "check.serial_independence", "dpc.Normal.1", "dpc.Normal.2", "dpc.Normal.3+", "dpc.Poisson.4+", "dpc.Binomial.4+", "dpc.Gamma.4+"] {
+        for k in ["api.sample_loop", "api.sample_n", "api.sample_matrix", "seeding.seed_clock", "seeding.seed_small", "seeding.seed_set", "config.fault_free", "config.fault_injecting", "config.reached_by_update", "config.off_grid", "fault.rng_zero", "fault.rng_max", "fault.rng_tiny", "fault.rng_half", "fault.rng_tail", "fault.rng_streak", "fault.rng_pair", "config.default_ctor", "config.mvn_structured", "check.dkw", "check.mvn_projection", "check.serial_independence", "dpc.Normal.1", "dpc.Normal.2", "dpc.Normal.3+", "dpc.Poisson.4+", "dpc.Binomial.4+", "dpc.Gamma.4+"] {
             v.push(k.to_string());
         }
         v
@@ -590,7 +647,13 @@ fn exec_1d(case: &Case, law: &str, p: &[f64], reg: &str, st: &mut Stats, h: &mut
         return None;
     }
     let via = unfb(&case.via);
-    let obj = if via.len() == p.len() && super::c18::valid(law, &via) {
+    let obj = if case.default_ctor && slice_bits_eq(p, &super::c18::default_params_pub(law)).is_none() {
+        st.inc("config.default_ctor");
+        match catch(|| Obj::default_of(law)) {
+            Ok(o) => o,
+            Err(m) => return mk("constructor", "valid_rejected", format!("{}::default() panicked: {}", law, m)),
+        }
+    } else if via.len() == p.len() && super::c18::valid(law, &via) {
         st.inc("config.reached_by_update");
         let mut o = match catch(|| Obj::new(law, &via)) {
             Ok(o) => o,
@@ -695,10 +758,25 @@ fn exec_1d(case: &Case, law: &str, p: &[f64], reg: &str, st: &mut Stats, h: &mut
     }
     let discrete = is_discrete(law);
     let point = is_point_mass(law, p);
+    // atoms in a continuous law
+    let xs_in_order = if !discrete && !point { xs.clone() } else { vec![] };
+    let mut sorted = xs;
+    let pv = p.to_vec();
+    let lawc = law.to_string();
+    let cdf = move |x: f64| ref_cdf(&lawc, &pv, x);
+    let pv2 = p.to_vec();
+    let lawc2 = law.to_string();
+    let left = move |x: f64| if discrete { ref_cdf(&lawc2, &pv2, x - 1.0) } else if point { if x > pv2[0] { 1.0 } else { 0.0 } } else { ref_cdf(&lawc2, &pv2, x) };
+    let (d, at) = dkw_distance(&mut sorted, &cdf, &left, discrete || point);
+    st.inc("check.dkw");
+    let eps = eps_dkw(sorted.len());
+    if !(d <= eps) {
+        return mk("dkw_band", "dkw_exceeded", format!("{}({:?}), n = {}: sup|F_n - F| >= {:.5} at x = {:e} (band {:.5})", law, p, sorted.len(), d, at, eps));
+    }
     // serial independence of the n draws: for disjoint pairs at lag 1, 2 and n/2 the events
     // "below the median" must be independent (each pair: probability 1/4; Hoeffding, alpha 1e-12 / 3)
     if !discrete && !point {
-        let below: Vec<bool> = xs.iter().map(|x| ref_cdf(law, p, *x) < 0.5).collect();
+        let below: Vec<bool> = xs_in_order.iter().map(|x| ref_cdf(law, p, *x) < 0.5).collect();
         let nn = below.len();
         st.inc("check.serial_independence");
         for lag in [1usize, 2, nn / 2] {
@@ -726,20 +804,6 @@ fn exec_1d(case: &Case, law: &str, p: &[f64], reg: &str, st: &mut Stats, h: &mut
                 }
             }
         }
-    }
-    // atoms in a continuous law
-    let mut sorted = xs;
-    let pv = p.to_vec();
-    let lawc = law.to_string();
-    let cdf = move |x: f64| ref_cdf(&lawc, &pv, x);
-    let pv2 = p.to_vec();
-    let lawc2 = law.to_string();
-    let left = move |x: f64| if discrete { ref_cdf(&lawc2, &pv2, x - 1.0) } else if point { if x > pv2[0] { 1.0 } else { 0.0 } } else { ref_cdf(&lawc2, &pv2, x) };
-    let (d, at) = dkw_distance(&mut sorted, &cdf, &left, discrete || point);
-    st.inc("check.dkw");
-    let eps = eps_dkw(sorted.len());
-    if !(d <= eps) {
-        return mk("dkw_band", "dkw_exceeded", format!("{}({:?}), n = {}: sup|F_n - F| >= {:.5} at x = {:e} (band {:.5})", law, p, sorted.len(), d, at, eps));
     }
     if !discrete && !point {
         let mut run = 1usize;
@@ -781,6 +845,9 @@ fn exec_mvn(case: &Case, p: &[f64], st: &mut Stats, h: &mut H64, faulty: bool) -
     }
     let mean = p[1..1 + d].to_vec();
     let cov = p[1 + d..].to_vec();
+    if d >= 2 && (0..d).all(|i| (0..d).all(|j| i == j || cov[i * d + j] == cov[1] || cov[i * d + j] == 0.0 || cov[i * d + j] == -cov[1] || cov[i * d + j].abs() == cov[1].abs() / 2.0)) {
+        st.inc("config.mvn_structured");
+    }
     let l = match cholesky(&cov, d) {
         Some(l) => l,
         None => return None,
